@@ -344,9 +344,56 @@ fn c06_scripted(cfg: &Cfg, ins: &[String], tables: &AtomTables, viol: &mut ViolA
             return;
         }
     }
+    // construction routes: the same mode list handed over one mode at a time, in two slices, through
+    // TryFrom and through the cache is the same configuration (mode i is the i-th mode added)
+    let modes = cfg.to_scnr();
+    let routes: Vec<(&str, Result<Result<scnr::Scanner, String>, String>)> = vec![
+        ("ScannerBuilder::new().add_scanner_mode(m0).add_scanner_mode(m1)...build_uncached()", bridge::catch(|| modes.iter().fold(scnr::ScannerBuilder::new(), |b, m| b.add_scanner_mode(m.clone())).build_uncached().map_err(|e| e.to_string()))),
+        ("ScannerBuilder::new().add_scanner_mode(m0).add_scanner_mode(m1)...build()", bridge::catch(|| modes.iter().fold(scnr::ScannerBuilder::new(), |b, m| b.add_scanner_mode(m.clone())).build().map_err(|e| e.to_string()))),
+        ("ScannerBuilder::new().add_scanner_modes(&m[..1]).add_scanner_modes(&m[1..]).build_uncached()", bridge::catch(|| scnr::ScannerBuilder::new().add_scanner_modes(&modes[..1]).add_scanner_modes(&modes[1..]).build_uncached().map_err(|e| e.to_string()))),
+        ("ScannerBuilder::new().add_scanner_mode(m0).add_scanner_modes(&m[1..]).build()", bridge::catch(|| scnr::ScannerBuilder::new().add_scanner_mode(modes[0].clone()).add_scanner_modes(&modes[1..]).build().map_err(|e| e.to_string()))),
+        ("Scanner::try_from(modes)", bridge::catch(|| scnr::Scanner::try_from(modes.clone()).map_err(|e| e.to_string()))),
+    ];
+    let mut route_scanners = vec![];
+    for (name, r) in routes {
+        *n += 1;
+        match r {
+            Ok(Ok(s)) => route_scanners.push((name, s)),
+            Ok(Err(e)) => {
+                fail(viol, format!("{name} fails with {e:?}; add_scanner_modes(all).build_uncached() builds"), vec![name.to_string()], "");
+                return;
+            }
+            Err(p) => {
+                fail(viol, format!("{name} panicked: {p}"), vec![name.to_string()], "");
+                return;
+            }
+        }
+    }
     for input in ins {
         let table = ScanTable::new(&spec, input, tables);
         let want = model_stream(&table);
+        for (name, rs) in &route_scanners {
+            *n += 1;
+            let r = bridge::catch(|| {
+                let it = rs.find_iter(input);
+                let names: Vec<Option<String>> = (0..cfg.modes.len()).map(|i| it.mode_name(i).map(|s| s.to_string())).collect();
+                let toks: Vec<(usize, usize, usize)> = it.map(|m| bridge::tok(&m)).collect();
+                (names, toks)
+            });
+            let want_names: Vec<Option<String>> = cfg.modes.iter().map(|m| Some(m.name.clone())).collect();
+            match r {
+                Err(p) => {
+                    fail(viol, format!("scanner built by {name}: panic {p}"), vec![name.to_string(), "find_iter(input).collect()".into()], input);
+                    return;
+                }
+                Ok((names, toks)) => {
+                    if toks != want || names != want_names {
+                        fail(viol, format!("scanner built by {name} has modes {names:?} and yields {toks:?}; the configuration (modes {want_names:?}, start in the first) yields {want:?}"), vec![name.to_string(), "find_iter(input).collect()".into()], input);
+                        return;
+                    }
+                }
+            }
+        }
         for set_to in 0..cfg.modes.len() {
             *n += 1;
             let r = bridge::catch(|| {
@@ -357,7 +404,7 @@ fn c06_scripted(cfg: &Cfg, ins: &[String], tables: &AtomTables, viol: &mut ViolA
                 let _ = first.next();
                 let it = sc.find_iter(input);
                 let m0 = it.current_mode();
-                let toks: Vec<(usize, usize, usize)> = it.map(|m| (m.token_type(), m.start(), m.end())).collect();
+                let toks: Vec<(usize, usize, usize)> = it.map(|m| bridge::tok(&m)).collect();
                 (m0, toks, sc.current_mode())
             });
             match r {
@@ -535,7 +582,7 @@ pub fn run(prop: &'static str, tier: Tier) -> ! {
             total.viol.merge(v);
             scripted += n;
         }
-        fam_json.push(json!({"family": "scripted: Scanner::set_mode before find_iter, second find_iter after a partial first one, mode_name on scanner/iterator/WithPositions", "configurations": cfgs.len(), "inputs": ins.len(), "scripts_run": scripted}));
+        fam_json.push(json!({"family": "scripted: Scanner::set_mode before find_iter, second find_iter after a partial first one, mode_name on scanner/iterator/WithPositions; five construction routes (add_scanner_mode one by one, two slices, mixed, through build(), Scanner::try_from) yield the same modes in the same order", "configurations": cfgs.len(), "inputs": ins.len(), "scripts_run": scripted}));
     }
     if prop == "C06" {
         // mode indices beyond 2^8 and 2^16: a ring of N modes (mode i: `a` => 0 -> mode i+1, `b` => 1
